@@ -60,9 +60,10 @@ def str_of_id(i: int) -> str | None:
 class VStr:
     """A string value. `sid` is a python int (concrete) or a z3 Int (symbolic)."""
 
-    def __init__(self, sid, text: str | None = None):
+    def __init__(self, sid, text: str | None = None, fparts=None):
         self.sid = sid
         self.text = text
+        self.fparts = fparts   # (prefix, int term) for an f-string of the form f"prefix{int}"
 
     @staticmethod
     def const(s: str) -> "VStr":
@@ -124,8 +125,10 @@ class DictV:
 class CDict:
     """Dict with concrete (python str) keys and arbitrary values; insertion order kept."""
 
-    def __init__(self, items=None):
+    def __init__(self, items=None, fam=None):
         self.items = dict(items or {})
+        # key families f"prefix{d}": prefix -> (has(d) -> bool term, get(d) -> value)
+        self.fam = dict(fam or {})
 
 
 class Ref:
